@@ -410,6 +410,29 @@ func (d *drv) sig(c sigCase) {
 	if verr != nil {
 		ok = false
 	}
+	// ... and after the genuine triple has verified once (whatever the scheme remembers about it), the same
+	// signature under RELATED keys and hashes: the signer's key with one bit of its last byte flipped (for
+	// bls0chain the top bit gives the negated key), the signed hash with a byte appended / cut off
+	genuine, err := keys[c.Sk].Sign(hashes[c.Sh])
+	must(err)
+	vfy := func(pub, h string) bool {
+		v := encryption.GetSignatureScheme(c.Scheme)
+		if v.SetPublicKey(pub) != nil {
+			return false
+		}
+		ok, err := v.Verify(genuine, h)
+		return err == nil && ok
+	}
+	spub := keys[c.Sk].GetPublicKey()
+	flipLast := func(mask byte) string {
+		b, _ := hex.DecodeString(spub)
+		b[len(b)-1] ^= mask
+		return hex.EncodeToString(b)
+	}
+	warm := vfy(spub, hashes[c.Sh])
+	related := vfy(flipLast(0x80), hashes[c.Sh]) || vfy(flipLast(0x01), hashes[c.Sh]) ||
+		vfy(spub, hashes[c.Sh]+"00") || vfy(spub, hashes[c.Sh][:len(hashes[c.Sh])-2]) || vfy(spub, hashes[c.Sh]+hashes[c.Vh])
+	again := vfy(spub, hashes[c.Sh])
 	// client id = hash(public key)
 	cl := client.NewClient(client.SignatureScheme(c.Scheme))
 	must(cl.SetPublicKey(keys[c.IdKey].GetPublicKey()))
@@ -425,6 +448,7 @@ func (d *drv) sig(c sigCase) {
 		idIsHash = false
 	}
 	d.rc.Emit(rec.M{"ev": "Sig", "scheme": c.Scheme, "sk": c.Sk, "sh": c.Sh, "vk": c.Vk, "vh": c.Vh, "mg": c.Mg,
-		"idkey": c.IdKey, "idclaim": c.IdClaim, "verified": ok, "id_ok": idOK, "id_is_hash": idIsHash},
+		"idkey": c.IdKey, "idclaim": c.IdClaim, "verified": ok, "id_ok": idOK, "id_is_hash": idIsHash,
+		"genuine_ok": warm && again, "related_ok": related},
 		fmt.Sprintf("sig/%s/%v/%v/%v/%s", c.Scheme, c.Sk == c.Vk, c.Sh == c.Vh, ok, c.Mg), ok)
 }
